@@ -780,7 +780,11 @@ def run(ctx):
     col = Collector(ctx)
     import threading
     for st in (stage_der, stage_der_deep, stage_armour, stage_container, stage_pkcs):
-        st(ctx)
+        try:
+            st(ctx)
+        except Exception as e:                 # noqa  keep going: the sweep below still looks for a failing input
+            import traceback
+            ctx.broke('stage-exception:' + st.__name__, traceback.format_exc()[-1500:])
         ctx.log('generated', st.__name__)
     t = threading.Thread(target=_flush, args=(ctx,))
     t.start()                      # model evaluation (coqc) runs while the implementation sweep runs
@@ -792,13 +796,53 @@ def run(ctx):
         ctx.log('implementation sweep finished')
     finally:
         t.join()
-    ctx.log('correspondence evaluated')
-    col.emit()
+        ctx.log('correspondence evaluated')
+        col.emit()
+
+
+class _ReplayCtx:
+    """Minimal stand-in for core.Ctx used to re-run one cell of the sweep."""
+    tier = 'quick'
+
+    def __init__(self):
+        import random
+        self.rng = random.Random('replay')
+        self.failed = []
+        self.cov = {'oracle': {}, 'distribution': {}}
+
+    def count(self, *a, **k):
+        pass
+
+    def note_case(self, *a, **k):
+        pass
+
+    def sample(self, *a, **k):
+        pass
+
+    def log(self, *a):
+        print(*a)
+
+    def broke(self, name, detail):
+        print('BROKEN', name, detail)
+
+    def failing_input(self, what, rp):
+        self.failed.append((what, rp))
+        return True
+
+
+def _latin(x, is_bytes):
+    if x is None:
+        return None
+    return x.encode('latin-1') if is_bytes else x
 
 
 def replay(rp):
     core.setup_paths()
     import asyncssh
+    import shutil
+    import tempfile
+    import warnings
+    from .. import c15_sweep as SW
     m = G.asn1()
     kind = rp.get('kind')
     if kind == 'der_deep_nesting':
@@ -825,5 +869,43 @@ def replay(rp):
         except Exception:                      # noqa
             return 0
         return 0
-    print('replay of kind', kind, 'not supported')
-    return 2
+    if 'alg' not in rp and kind not in ('private_list', 'public_list'):
+        print('replay of kind', kind, 'not supported')
+        return 2
+    warnings.simplefilter('ignore')
+    rctx = _ReplayCtx()
+    tmp = tempfile.mkdtemp(prefix='c15r-', dir='/var/tmp')
+    try:
+        if kind in ('private_list', 'public_list'):
+            pool = [(a, {}, asyncssh.generate_private_key(a)) for a in ('ssh-ed25519', 'ecdsa-sha2-nistp256', 'ssh-rsa')]
+            SW.check_key_lists(rctx, pool, tmp, rctx.rng)
+        else:
+            alg, kw = rp['alg'], rp.get('keygen') or {}
+            key = asyncssh.generate_private_key(alg, **kw)
+            cm = rp.get('comment')
+            cm = cm.encode('latin-1') if cm is not None else None
+            pw = _latin(rp.get('passphrase'), rp.get('passphrase_is_bytes', False))
+            if kind in ('private_roundtrip', 'private_cross_type_passphrase'):
+                SW.check_private_roundtrip(rctx, alg, kw, key, rp['format'], rp.get('opts') or {}, pw, cm)
+            elif kind in ('public_roundtrip', 'public_comment_hard'):
+                SW.check_public_roundtrip(rctx, alg, kw, key, rp['format'], cm, hard=(kind == 'public_comment_hard'))
+            elif 'certificate' in kind:
+                SW.check_certificates(rctx, [(alg, kw, key)], tmp)
+            elif kind.startswith('pyca_'):
+                SW.check_pyca(rctx, alg, kw, key, rctx.rng, False)
+            elif kind.startswith('openssl_'):
+                SW.check_openssl_cli(rctx, [(alg, kw, key)], tmp)
+            elif kind.startswith('keygen_'):
+                SW.check_ssh_keygen(rctx, [(alg, kw, key)] if kw is not None else [], tmp, rctx.rng, False)
+            else:
+                print('replay of kind', kind, 'not supported')
+                return 2
+    finally:
+        shutil.rmtree(tmp, ignore_errors=True)
+    want = rp.get('group') or _group(rp)
+    same = [w for w, r in rctx.failed if _group(r) == want]
+    for w in same[:3]:
+        print('still fails:', w[:300])
+    if not same:
+        print('no longer fails (group %s)' % want)
+    return 1 if same else 0
